@@ -105,8 +105,11 @@ Proof.
 Qed.
 
 (* ---- replies ---- *)
+Lemma conflict_sym p q : conflict p q = conflict q p.
+Proof. unfold conflict. rewrite (String.eqb_sym (snd p) (snd q)), (excludes_sym (rm_on (fst p))). reflexivity. Qed.
+
 Lemma compatible_cons p ps : compatible (p :: ps) <->
-  (compatible ps /\ forall q, In q ps -> rid_of p = rid_of q -> excludes (rm_on (fst p)) (rm_on (fst q)) = false).
+  (compatible ps /\ forall q, In q ps -> rid_of p = rid_of q -> conflict p q = false).
 Proof.
   split.
   - intros C. split.
@@ -129,7 +132,7 @@ Proof.
     apply compatible_cons. split.
     + apply compatible_cons. split; [exact C|]. intros q Iq. apply Hy. right. exact Iq.
     + intros q [<-|Iq] Eq.
-      * rewrite excludes_sym. apply Hy; [left; reflexivity | symmetry; exact Eq].
+      * rewrite conflict_sym. apply Hy; [left; reflexivity | symmetry; exact Eq].
       * apply Hx; auto.
   - apply IHPermutation2. apply IHPermutation1. exact C.
 Qed.
